@@ -15,6 +15,7 @@
 #include <sys/stat.h>
 #include <fcntl.h>
 #include <signal.h>
+#include <sys/ioctl.h>
 #include <map>
 #include <thread>
 #include <atomic>
@@ -52,6 +53,20 @@ public:
 	// the supervision callbacks are invoked synchronously by the driver ("tick"), never by the timer thread
 	// (no join here: ~Timer joins, and joining twice would wait on a recycled thread id)
 	void quiet_timer() { _timer.clear(); _timer.stop(); }
+
+	// C15: with _record set, what the real reader thread hands to the session is only recorded
+	bool _record = false;
+	std::mutex _rm;
+	std::vector<std::string> _frames;
+	bool process(const f8String& from) override
+	{
+		if (!_record)
+			return Session::process(from);
+		std::lock_guard<std::mutex> g(_rm);
+		_frames.push_back(from);
+		return true;
+	}
+	size_t nframes() { std::lock_guard<std::mutex> g(_rm); return _frames.size(); }
 
 	bool handle_application(const unsigned seqnum, const Message *&msg) override
 	{
@@ -329,6 +344,7 @@ static void build_session(World& w, bool purge)
 	lp._silent_disconnect = flag(w, "silent");
 	lp._no_chksum_flag = flag(w, "nochk");
 	lp._hb_int = w.hb;
+	w.ses->_record = flag(w, "record");
 	auto ci(w.flags.find("clients"));
 	if (ci != w.flags.end())
 	{
@@ -516,6 +532,45 @@ int main(int argc, char **argv)
 				teardown(w, true);
 				build_session(w, false);
 				emit(w, "Restart", pre, "", true);
+			}
+			else if (c == "feed")     // feed <hex>: the counterparty writes these bytes; wait until the reader has taken them
+			{
+				const std::string data(pj::unhex(t[1]));
+				size_t off(0);
+				while (off < data.size())
+				{
+					const ssize_t n(::send(w.peerfd, data.data() + off, data.size() - off, MSG_NOSIGNAL));
+					if (n <= 0) break;
+					off += n;
+				}
+				for (int spin(0); spin < 2000; ++spin)   // until the session's socket has no unread bytes (max 2 s)
+				{
+					int pending(0);
+					if (ioctl(w.sock->impl()->sockfd(), FIONREAD, &pending) || pending == 0) break;
+					if (w.ses->st() == States::st_session_terminated) break;
+					usleep(1000);
+				}
+				usleep(300);
+			}
+			else if (c == "frames")   // what the reader thread delivered so far
+			{
+				size_t last(w.ses->nframes());
+				for (int quiet(0), spin(0); quiet < 8 && spin < 1000; ++spin)   // stable for 8 ms
+				{
+					usleep(1000);
+					const size_t nowc(w.ses->nframes());
+					if (nowc == last) ++quiet; else { quiet = 0; last = nowc; }
+				}
+				std::string fr("[");
+				{
+					std::lock_guard<std::mutex> g(w.ses->_rm);
+					for (size_t i(0); i < w.ses->_frames.size(); ++i)
+						fr += std::string(i ? "," : "") + "{\"len\":" + std::to_string(w.ses->_frames[i].size()) + ",\"h\":" + std::to_string(fnv31(w.ses->_frames[i])) + "}";
+				}
+				fr += "]";
+				int pending(0);
+				ioctl(w.sock->impl()->sockfd(), FIONREAD, &pending);
+				pj::Ev("Frames").raw("delivered", fr).i("st", w.ses->st()).b("shutdown", w.ses->shut()).i("unread", pending).emit();
 			}
 			else if (c == "outhex") { g_outhex = t[1] == "on"; }
 			else if (c == "peerclose")   // the counterparty's end goes away: the session's next socket write fails
